@@ -701,10 +701,69 @@ func (c *Ctx) idSelectsRemoval(fn *ssa.Function, argIdx int, depth int, seen map
 				} else if stringsContains(d, "single stored item") {
 					return false, d
 				}
+				// the callee may only find the item (indexOf(id, deadline) (idx, ok)): the removal is then made here,
+				// under what the callee answered
+				if cv := cl.Value(); cv != nil && c.idSelectsPosition(cl.Static, aj) {
+					for _, rb := range fn.Blocks {
+						removes := false
+						for _, in := range rb.Instrs {
+							if st, ok := in.(*ssa.Store); ok {
+								if _, ok := st.Addr.(*ssa.FieldAddr); ok {
+									removes = true
+								}
+							}
+							if dc := core.CallOf(in); dc != nil && dc.Builtin() == "delete" {
+								removes = true
+							}
+						}
+						if !removes {
+							continue
+						}
+						for _, cc := range controllingConds(rb, nil) {
+							if depReaches(cc.cond, func(x ssa.Value) bool { return x == cv }) {
+								return true, "id compared for equality inside a scan (" + c.fname(cl.Static) + "), and its answer controls the removal (" + c.fname(fn) + ")"
+							}
+						}
+					}
+				}
 			}
 		}
 	}
 	return false, "the id parameter never reaches an equality test that selects the item to remove in " + c.fname(fn) + ": deleting one entry's timeout removes whichever entry happens to be first"
+}
+
+// idSelectsPosition: g compares its parameter argIdx for equality with stored items inside a loop, and the equal branch
+// leads to a return of its own (the position found), other than the return taken when nothing matched.
+func (c *Ctx) idSelectsPosition(g *ssa.Function, argIdx int) bool {
+	pi := argIdx
+	if g.Signature.Recv() != nil {
+		pi = argIdx + 1
+	}
+	if pi >= len(g.Params) || len(g.Blocks) == 0 {
+		return false
+	}
+	loops := core.Loops(g)
+	for _, b := range g.Blocks {
+		iff, ok := b.Instrs[len(b.Instrs)-1].(*ssa.If)
+		if !ok || core.InnermostLoop(loops, b) == nil {
+			continue
+		}
+		a := orderAtom(iff.Cond, false)
+		if a.kind != "equality" || !(reachesParam(a.lhs, g, pi) || reachesParam(a.rhs, g, pi)) {
+			continue
+		}
+		eqSucc := b.Succs[0]
+		if bo, isb := iff.Cond.(*ssa.BinOp); isb && bo.Op == token.NEQ {
+			eqSucc = b.Succs[1]
+		}
+		for _, rb := range g.Blocks {
+			if _, isRet := rb.Instrs[len(rb.Instrs)-1].(*ssa.Return); isRet && eqSucc.Dominates(rb) {
+				c.R.Fn(c.fname(g))
+				return true
+			}
+		}
+	}
+	return false
 }
 
 // ruleSweepDrains implements C04-R7 (also part of the in-flight table contract used by C03 / C20).
